@@ -198,6 +198,9 @@ func modelNew(c newCase) model.Frame {
 		if c.EnumCol == n && isStringKind(spec.Kind) {
 			enumUsed = true
 			mc.Kind = model.Enum
+			if !c.EnumNil && len(c.EnumVals) > 255 {
+				return rej("more than 255 enum values")
+			}
 			if !c.EnumNil {
 				mc.EnumVals = c.EnumVals
 				if len(c.EnumVals) > 0 {
@@ -285,6 +288,9 @@ type projCase struct {
 	Cols  []string `json:"cols,omitempty"`
 	A     int      `json:"a,omitempty"`
 	B     int      `json:"b,omitempty"`
+	// Pre: a projection applied first (select/drop with PreCols); Op then runs on its result
+	Pre     string   `json:"pre,omitempty"`
+	PreCols []string `json:"pre_cols,omitempty"`
 }
 
 func c08ProjBase() model.Frame {
@@ -319,6 +325,20 @@ func runProjCase(c projCase) *core.Failure {
 	qf, in := c08proj.real[c.Shape], c08proj.obs[c.Shape]
 	if in.Err {
 		return core.Failf("input frame could not be built")
+	}
+	if c.Pre != "" {
+		// the first step is checked on its own by the single-step cases; here its observed result is the input
+		if c.Pre == "select" {
+			qf = qf.Select(c.PreCols...)
+		} else {
+			qf = qf.Drop(c.PreCols...)
+		}
+		o := model.Observe(qf)
+		if o.Err {
+			return nil
+		}
+		o.AdoptMeta(in)
+		in = o
 	}
 	var got model.Frame
 	var wants []model.Frame // any of these is acceptable
@@ -420,7 +440,7 @@ func runProjCase(c projCase) *core.Failure {
 		}
 		diffs = append(diffs, d)
 	}
-	return core.Failf("%s(%v,%d,%d) on %s frame: %s\n input: %s\n  want: %s\n   got: %s", c.Op, c.Cols, c.A, c.B, model.ShapeNames[c.Shape], strings.Join(diffs, " / "), in, wants[0], got)
+	return core.Failf("%s(%v,%d,%d) after %s(%v) on %s frame: %s\n input: %s\n  want: %s\n   got: %s", c.Op, c.Cols, c.A, c.B, c.Pre, c.PreCols, model.ShapeNames[c.Shape], strings.Join(diffs, " / "), in, wants[0], got)
 }
 
 // ---- enumeration ---------------------------------------------------------------
@@ -560,6 +580,20 @@ func c08Run(ctx *core.Ctx) {
 			}
 		})
 	}
+	// explicit enum value lists around the 255-value limit; the data uses the first and the last declared value
+	for _, nvals := range []int{254, 255, 256, 257} {
+		vals := make([]string, nvals)
+		for i := range vals {
+			vals[i] = fmt.Sprintf("v%03d", i)
+		}
+		for _, kind := range []string{"strptrs", "conststring"} {
+			if ctx.Mine() {
+				c := newCase{Cols: []colSpec{{Name: "a", Kind: kind, Len: 3, Strs: []string{vals[nvals-1], vals[0], vals[nvals-1]}}}, EnumCol: "a", EnumVals: vals}
+				ctx.Exec(c, func() *core.Failure { return runNewCase(c) })
+				ctx.Outcome(fmt.Sprintf("new/enum-%dvalues", nvals))
+			}
+		}
+	}
 	for _, s := range cells {
 		if s == nilMark {
 			continue
@@ -616,6 +650,46 @@ func c08Run(ctx *core.Ctx) {
 				}
 			}
 		}
+		// two steps: every valid Select sequence / Drop subset, then every Copy, Select of the remaining columns reversed, and Slice
+		var pres []projCase
+		var rec2 func(cur []string, used int)
+		rec2 = func(cur []string, used int) {
+			if len(cur) > 0 {
+				pres = append(pres, projCase{Pre: "select", PreCols: append([]string{}, cur...)})
+			}
+			for i, u := range universe[:3] {
+				if used&(1<<i) == 0 {
+					rec2(append(cur, u), used|1<<i)
+				}
+			}
+		}
+		rec2(nil, 0)
+		for mask := 1; mask < 7; mask++ {
+			var cols []string
+			for i, u := range universe[:3] {
+				if mask&(1<<i) != 0 {
+					cols = append(cols, u)
+				}
+			}
+			pres = append(pres, projCase{Pre: "drop", PreCols: cols})
+		}
+		for _, pre := range pres {
+			for _, dst := range []string{"a", "b", "c", "new"} {
+				for _, src := range []string{"a", "b", "c"} {
+					if ctx.Mine() {
+						execProj(projCase{Shape: shape, Op: "copy", Cols: []string{dst, src}, Pre: pre.Pre, PreCols: pre.PreCols})
+					}
+				}
+			}
+			if ctx.Mine() {
+				execProj(projCase{Shape: shape, Op: "slice", A: 1, B: 3, Pre: pre.Pre, PreCols: pre.PreCols})
+			}
+			for _, sel := range [][]string{{"c"}, {"b", "a"}, {"c", "b", "a"}} {
+				if ctx.Mine() {
+					execProj(projCase{Shape: shape, Op: "select", Cols: sel, Pre: pre.Pre, PreCols: pre.PreCols})
+				}
+			}
+		}
 		// Copy
 		for _, dst := range []string{"a", "b", "c", "new", "zz", "", "$x", "'q'"} {
 			for _, src := range []string{"a", "b", "c", "zz", ""} {
@@ -633,7 +707,7 @@ func init() {
 		Setup: func() { c08ProjEnv() },
 		Level: "model_checking",
 		Rule: "case = New input (column map over names a,b,c with every data kind incl. Const* and unsupported types, every length combination from {0,1,3}, every ColumnOrder variant: none/all permutations/too short/too long/unknown/duplicate, every Enums variant: none/nil/empty/covering/non-covering/missing column/other column), " +
-			"name alphabets incl. illegal names, string cell alphabets (\"\", nil, NUL, invalid UTF-8, 300 bytes); and every Select sequence, Drop subset, Slice bound pair and Copy pair on 7 index shapes. " +
+			"name alphabets incl. illegal names, string cell alphabets (\"\", nil, NUL, invalid UTF-8, 300 bytes); and every Select sequence, Drop subset, Slice bound pair and Copy pair on 7 index shapes, alone and as the second step after every valid Select sequence / Drop subset. " +
 			"Non-trivial = New accepted by the model / any projection request; distinct by case content.",
 		Assumptions: []string{
 			"model of New written from the statement: reject illegal names, unequal lengths, unknown/duplicate ColumnOrder entries, Enums entries for missing or non-string columns, undeclared enum values, unsupported data types",
